@@ -220,16 +220,20 @@ Definition enc_result (r : result) : sx :=
       of_strs (r_stderr r);
       SL (flat_map enc_level (r_levels r))].
 
-(** (floats env version root argv); version = () | (name text) *)
+(** (floats env version root argv); version = () | (name text) | (name text last) *)
 Definition e_run (x : sx) : sx :=
   let floats := dec_pairs (sx_nth 0 x) in
   let env := dec_pairs (sx_nth 1 x) in
   let ver := match sx_list (sx_nth 2 x) with
-             | [n; t] => Some (sx_str n, sx_str t)
+             | n :: t :: _ => Some (sx_str n, sx_str t)
              | _ => None
              end in
+  let last := match sx_list (sx_nth 2 x) with
+              | [_; _; l] => sx_bool l
+              | _ => false
+              end in
   let root := dec_cmd floats (sx_nth 3 x) in
-  enc_result (run (float_of floats) (getenv_of env) (mkApp root ver) (sx_strs (sx_nth 4 x))).
+  enc_result (run (float_of floats) (getenv_of env) (mkAppAt root ver last) (sx_strs (sx_nth 4 x))).
 
 (** * Reference semantics as an oracle *)
 
